@@ -138,3 +138,18 @@ m("c09-factory-adjust-first", "C09", "composite/factory.py", "        while True
   "        while True:\n            supply, demand = self.supply, self.demand\n            if supply > demand:\n                self._shrink(target=demand)\n            else:\n                self._grow(target=demand)\n            await trio.sleep(self.interval)")
 m("c09-factory-every-other", "C09", "composite/factory.py", "            await trio.sleep(self.interval)\n", "            await trio.sleep(self.interval)\n            await trio.sleep(self.interval)\n")
 m("c09-linear-interval-drift", "C09", "controller/linear.py", "            await trio.sleep(self.interval)", "            await trio.sleep(self.interval * 1.001)")
+# ---- C05
+m("c05-pipeline-forwards", "C05", "daemon/core/config.py", "            for index, item in reversed(list(enumerate(pipeline))):", "            for index, item in list(enumerate(pipeline)):")
+m("c05-seq-as-one-arg", "C05", "daemon/config/yaml.py", "            return factory(*args)", "            return factory(args)")
+m("c05-eager-inverted", "C05", "daemon/config/yaml.py", "            kwargs = loader.construct_mapping(node, deep=eager)", "            kwargs = loader.construct_mapping(node, deep=not eager)")
+m("c05-type-target-dropped", "C05", "daemon/core/config.py",
+  "                        prev_item = self.translate_hierarchy(\n                            item, where=\"%s[%s]\" % (where, index), target=prev_item\n                        )",
+  "                        prev_item = self.translate_hierarchy(\n                            item, where=\"%s[%s]\" % (where, index), target=items[0]\n                        )")
+m("c05-append-before-bind", "C05", "daemon/core/config.py",
+  "                    if hasattr(item, \"__rshift__\"):\n                        # fully constructed object from !constructor\n                        prev_item = item >> prev_item",
+  "                    if hasattr(item, \"__rshift__\"):\n                        # fully constructed object from !constructor\n                        prev_item = item >> items[0]")
+m("c05-swallow-constructor-error", "C05", "daemon/core/config.py",
+  "                        prev_item = item >> prev_item\n",
+  "                        try:\n                            prev_item = item >> prev_item\n                        except ValueError:\n                            continue\n")
+m("c05-construct-twice", "C05", "daemon/core/config.py", "                    if isinstance(prev_item, Partial):  # got form __type__\n                        prev_item = prev_item.__construct__()", "                    if isinstance(prev_item, Partial):  # got form __type__\n                        prev_item.__construct__()\n                        prev_item = prev_item.__construct__()")
+m("c05-kwargs-order-lost", "C05", "daemon/config/mapping.py", "        mapping = {**mapping, **kwargs}", "        mapping = {**kwargs, **{k: v for k, v in mapping.items() if k != 'name'}}")
